@@ -449,6 +449,33 @@ fn part_b(args: &RunArgs, rep: &Reporter) -> J {
                 case: json!({"part": "b", "project": pc.name, "args": bp.args, "files": bp.project.files}),
             });
         }
+        // history independence: the same inputs reached through an earlier generation of slightly different inputs
+        // (every GraphQL file had one more comment line on top) must leave the same bytes as the clean run
+        if pc.faults.is_empty() {
+            let dir = cli::thread_dir("c17");
+            let mut prev = bp.project.clone();
+            for (k, v) in prev.files.iter_mut() {
+                if k.ends_with(".graphql") {
+                    *v = format!("# an earlier state of this file\n{v}");
+                }
+            }
+            cli::materialize(&dir, &prev);
+            let shim = shim_path();
+            let env: Vec<(&str, &str)> = vec![("LD_PRELOAD", shim.as_str()), ("NQ_SEED", "0")];
+            let _ = cli::run(&dir, &bp.args, &env, Duration::from_secs(30));
+            cli::overwrite(&dir, &bp.project);
+            let second = observation(&cli::run(&dir, &bp.args, &env, Duration::from_secs(30)));
+            runs.fetch_add(2, Ordering::Relaxed);
+            let keys: BTreeSet<&String> = base.keys().chain(second.keys()).filter(|k| base.get(*k) != second.get(*k)).collect();
+            for k in keys {
+                let show = |m: &BTreeMap<String, Vec<u8>>| m.get(k).map(|b| String::from_utf8_lossy(b).chars().take(3000).collect::<String>());
+                rep.report(Violation {
+                    key: format!("b.output_depends_on_an_earlier_run:{}", classify_file(k)),
+                    what: format!("project {}: {} after (generate on earlier inputs, edit, generate) differs from a run on the same inputs in a clean directory", pc.name, k),
+                    case: json!({"part": "b", "project": pc.name, "args": bp.args, "what_differs": k, "clean_run": show(&base), "after_history": show(&second), "files": bp.project.files}),
+                });
+            }
+        }
         let written = base.keys().filter(|k| !k.starts_with('<') && !bp.project.files.contains_key(*k)).count();
         let differing_seeds: Mutex<Vec<u64>> = Mutex::new(vec![]);
         par_for(seeds as usize - 1, args.threads, |i| {
